@@ -288,6 +288,50 @@ def gen_frame(rng, max_cells=3, loads=True, allow_mz_dist=True):
     return s
 
 
+def gen_twins(rng):
+    """two or three equal bars (same direction, length, material, section) side by side whose loads sit at
+    positions that agree to six or more decimals without being equal, and equal loads on all of them:
+    whatever is remembered from one bar must not leak into the next"""
+    s = Structure()
+    std_mat_sec(s)
+    kind, dx, dy = direction(rng)
+    scale = Fr(rng.choice(["1", "10", "100"]))
+    t0 = Fr(rng.choice(["0.333333", "0.5", "0.25", "0.7071067", "0.123456"]))
+    deltas = [Fr(0), Fr(rng.choice(["0.0000003", "0.0000004", "0.00000007"])), Fr(rng.choice(["0.000000001", "0.00000002"]))]
+    nb = rng.choice([2, 3])
+    for k in range(nb):
+        ox = Fr(1000 * k)
+        s.nodes["p%d" % k] = (ox, Fr(0), (True, True, True))
+        s.nodes["q%d" % k] = (ox + dx * scale, dy * scale, (False, False, False))
+        s.bars.append({"id": "t%d" % k, "n1": "p%d" % k, "l1": LINKS["rigid"], "n2": "q%d" % k, "l2": LINKS["rigid"], "mat": "steel", "sec": "ipe"})
+        s.loads.append({"kind": "c", "term": "fy", "local": True, "bar": "t%d" % k, "t": t0 + deltas[k], "v": Fr(-100)})
+        if rng.random() < 0.5:
+            s.loads.append({"kind": "d", "term": "fy", "local": True, "bar": "t%d" % k, "t0": Fr("0.6") + deltas[k], "v0": Fr(-10), "t1": Fr("0.9") - deltas[k], "v1": Fr(-10)})
+    s.meta = {"kind": "twins"}
+    return s
+
+
+def gen_doubled_nodes(rng):
+    """distinct nodes at the same coordinates (members that cross without being connected, a doubled
+    node): each is its own set of unknowns"""
+    s = Structure()
+    std_mat_sec(s)
+    a = Fr(rng.choice(["10", "100", "25"]))
+    s.nodes = {"a": (Fr(0), Fr(0), (True, True, True)), "m1": (3 * a, 4 * a, (False, False, False)), "m2": (3 * a, 4 * a, (False, False, False)),
+               "b": (6 * a, Fr(0), (True, True, True)), "c": (6 * a, 8 * a, (True, True, rng.random() < 0.5)), "d": (Fr(0), 8 * a, (True, True, True))}
+    lk = lambda: LINKS[rng.choice(["rigid", "rigid", "pin"])]
+    s.bars = [{"id": "u1", "n1": "a", "l1": lk(), "n2": "m1", "l2": lk(), "mat": "steel", "sec": "ipe"},
+              {"id": "u2", "n1": "m1", "l1": LINKS["rigid"], "n2": "c", "l2": lk(), "mat": "steel", "sec": "ipe"},
+              {"id": "v1", "n1": "m2", "l1": LINKS["rigid"], "n2": "b", "l2": lk(), "mat": "steel", "sec": "ipe"},
+              {"id": "v2", "n1": "m2", "l1": lk(), "n2": "d", "l2": LINKS["rigid"], "mat": "steel", "sec": "ipe"}]
+    if rng.random() < 0.5:
+        s.bars.reverse()
+    s.loads = [{"kind": "c", "term": "fy", "local": False, "bar": "u1", "t": Fr(1), "v": Fr(-500)},
+               {"kind": "c", "term": "fx", "local": False, "bar": "v1", "t": Fr(0), "v": Fr(300)}]
+    s.meta = {"kind": "doubled-nodes"}
+    return s
+
+
 # ---------------------------------------------------------------- solvable structures
 
 def _rat_dir(rng, allow_axis=True):
